@@ -42,6 +42,9 @@ func MatchPatternScanner(scanner *bufio.Scanner, patterns []string, opts ...Matc
 	for _, opt := range opts {
 		opt(options)
 	}
+	if options.logger == nil {
+		options.logger = logger.Default
+	}
 
 	var regexps []*regexp.Regexp
 	var literalPatterns []string
